@@ -2,12 +2,156 @@
 
 use crate::exec::*;
 use crate::obs::Violation;
+use crate::ops::Format;
+use crate::restart::rebind_by_order;
 use crate::world::{RunStats, World};
+use stam::*;
+use std::collections::BTreeMap;
 
-pub fn restart_json_include(_world: &mut World, _stats: &mut RunStats) -> (ExecResult, Vec<Violation>) {
-    (ExecResult::Err("restart_json_include not implemented".into()), Vec::new())
+fn safe_name(id: &str) -> String {
+    id.chars()
+        .map(|c| if c.is_ascii_alphanumeric() || c == '-' || c == '_' { c } else { '_' })
+        .collect()
 }
 
-pub fn restart_csv(_world: &mut World, _stats: &mut RunStats) -> (ExecResult, Vec<Violation>) {
-    (ExecResult::Err("restart_csv not implemented".into()), Vec::new())
+fn diff_files(a: &BTreeMap<String, Vec<u8>>, b: &BTreeMap<String, Vec<u8>>) -> Option<String> {
+    for (k, v) in a.iter() {
+        match b.get(k) {
+            None => return Some(format!("file {} disappeared", k)),
+            Some(w) => {
+                if v != w {
+                    let sa = String::from_utf8_lossy(v).to_string();
+                    let sb = String::from_utf8_lossy(w).to_string();
+                    return Some(format!("file {} differs: {}", k, crate::restart::first_diff(&sa, &sb)));
+                }
+            }
+        }
+    }
+    for k in b.keys() {
+        if !a.contains_key(k) {
+            return Some(format!("file {} appeared", k));
+        }
+    }
+    None
+}
+
+/// Give every live resource and dataset a stand-off file (absolute SimFs paths, so that the
+/// reference survives later restarts whatever the work directory is)
+fn assign_standoff_files(world: &mut World, json_resources: bool) -> Result<(), String> {
+    let res: Vec<(usize, String, bool)> = world
+        .store
+        .resources()
+        .map(|r| (r.handle().as_usize(), r.id().unwrap_or("").to_string(), r.as_ref().filename().is_some()))
+        .collect();
+    for (h, id, has) in res {
+        // unspecified: a resource with empty text is never marked as changed by set_filename
+        let empty = world.store.resource(TextResourceHandle::new(h)).map(|r| r.textlen() == 0).unwrap_or(true);
+        if !has && !empty {
+            let ext = if json_resources && h % 2 == 1 { "json" } else { "txt" };
+            let name = format!("/sim/inc/{}.{}", safe_name(&id), ext);
+            let r: &mut TextResource = <AnnotationStore as StoreFor<TextResource>>::get_mut(&mut world.store, TextResourceHandle::new(h))
+                .map_err(|e| format!("{}", e))?;
+            r.set_filename(&name);
+        }
+    }
+    let sets: Vec<(usize, String, bool)> = world
+        .store
+        .datasets()
+        .map(|r| (r.handle().as_usize(), r.id().unwrap_or("").to_string(), r.as_ref().filename().is_some()))
+        .collect();
+    for (h, id, has) in sets {
+        if !has {
+            let name = format!("/sim/inc/{}.annotationset.stam.json", safe_name(&id));
+            let s: &mut AnnotationDataSet = <AnnotationStore as StoreFor<AnnotationDataSet>>::get_mut(&mut world.store, AnnotationDataSetHandle::new(h))
+                .map_err(|e| format!("{}", e))?;
+            s.set_filename(&name);
+        }
+    }
+    Ok(())
+}
+
+pub fn restart_json_include(world: &mut World, stats: &mut RunStats) -> (ExecResult, Vec<Violation>) {
+    let mut violations = Vec::new();
+    let n = world.restart_count;
+    let path = format!("/sim/j{}/store.store.stam.json", n);
+    stats.probe("restart_json_include");
+    let r = catch(|| -> Result<(), String> {
+        assign_standoff_files(world, true)?;
+        world.store.set_filename(&path);
+        world.store.save().map_err(|e| format!("{}", e))
+    });
+    match r {
+        Ok(Ok(())) => {}
+        Ok(Err(e)) => return (ExecResult::Err(format!("save: {}", e)), violations),
+        Err(p) => return (ExecResult::Panic(format!("save: {}", p)), violations),
+    }
+    let first = world.fs.snapshot();
+    if first.keys().any(|k| k.starts_with("/sim/inc/")) {
+        stats.probe("include_file_written");
+    }
+    // reload under the same output settings as the store was written with
+    let cfg = world.cfg.config().with_dataformat(world.store.config().dataformat());
+    let new = match catch(|| AnnotationStore::from_file(&path, cfg)) {
+        Ok(Ok(s)) => s,
+        Ok(Err(e)) => {
+            let main = String::from_utf8_lossy(first.get(&path).map(|v| &v[..]).unwrap_or(b"")).to_string();
+            let mut snippet = main;
+            trunc(&mut snippet, 300);
+            return (ExecResult::Err(format!("load: {} -- files {:?} -- {}", e, first.keys().collect::<Vec<_>>(), snippet)), violations);
+        }
+        Err(p) => return (ExecResult::Panic(format!("load: {}", p)), violations),
+    };
+    violations.append(&mut rebind_by_order(world, &new, Format::JsonInclude));
+    // writing the reloaded store again produces identical files (all of them)
+    match catch(|| new.save()) {
+        Ok(Ok(())) => {
+            let second = world.fs.snapshot();
+            if let Some(d) = diff_files(&first, &second) {
+                violations.push(Violation::new("C05", "mismatch", "reserialise.json_include", d));
+            }
+        }
+        Ok(Err(e)) => violations.push(Violation::new("C05", "outcome", "reserialise.json_include", format!("{}", e))),
+        Err(p) => violations.push(Violation::new("C05", "panic", "reserialise.json_include", normalise_panic(&p))),
+    }
+    world.store = new;
+    (ExecResult::Ok(None), violations)
+}
+
+pub fn restart_csv(world: &mut World, stats: &mut RunStats) -> (ExecResult, Vec<Violation>) {
+    let mut violations = Vec::new();
+    let n = world.restart_count;
+    let path = format!("/sim/c{}/store.store.stam.csv", n);
+    stats.probe("restart_csv");
+    let r = catch(|| -> Result<(), String> {
+        world.store.set_filename(&path);
+        world.store.save().map_err(|e| format!("{}", e))
+    });
+    match r {
+        Ok(Ok(())) => {}
+        Ok(Err(e)) => return (ExecResult::Err(format!("save: {}", e)), violations),
+        Err(p) => return (ExecResult::Panic(format!("save: {}", p)), violations),
+    }
+    let files = world.fs.snapshot();
+    let cfg = world.cfg.config();
+    let new = match catch(|| AnnotationStore::from_file(&path, cfg)) {
+        Ok(Ok(s)) => s,
+        Ok(Err(e)) => {
+            let mut dump = String::new();
+            for (k, v) in files.iter().filter(|(k, _)| k.contains(&format!("/c{}/", n))) {
+                dump += &format!("[{}]\n{}\n", k, String::from_utf8_lossy(v));
+            }
+            trunc(&mut dump, 600);
+            return (ExecResult::Err(format!("load: {} -- {}", e, dump)), violations);
+        }
+        Err(p) => return (ExecResult::Panic(format!("load: {}", p)), violations),
+    };
+    // the format stores values as text: the model follows
+    for s in world.model.datasets.iter_mut() {
+        for d in s.data.iter_mut() {
+            d.value = crate::ops::Val::Str(d.value.to_datavalue().to_string());
+        }
+    }
+    violations.append(&mut rebind_by_order(world, &new, Format::Csv));
+    world.store = new;
+    (ExecResult::Ok(None), violations)
 }
